@@ -431,6 +431,11 @@ class Interp:
         if isinstance(obj, type):
             self.class_attr_overrides.setdefault(obj, {})[name] = value    # never touches the native class
             return
+        if isinstance(obj, NDArr) and name == "dtype":
+            # reinterpreting the buffer: only the identity case (float64 <-> c_double ...) is modelled
+            if self.lib.numpy.kind_of_dtype(value) == obj.kind and obj.kind == "float":
+                return
+            raise Unsupported("assignment to ndarray.dtype that reinterprets the buffer")
         mod = inspect.getmodule(type(obj))
         if mod is not None and S.is_repo_file(getattr(mod, "__file__", "") or ""):
             return self.setattr(self.lift_instance(obj), name, value, node)
@@ -1454,6 +1459,8 @@ class Interp:
             return self.contains(tuple(items), item, node)
         r = self.lib.contains(self, container, item, node)
         if r is _MISSING:
+            if isinstance(container, enum.Flag) and isinstance(item, enum.Flag):
+                return item in container           # concrete flag membership (evaluated by CPython)
             raise Unsupported(f"`in` on {type(container).__name__}")
         return r
 
